@@ -112,6 +112,7 @@ def gen_config(rng):
     # directory names that are legal on disk but significant to URI / shell / SQL / glob syntax (no blank, ';', ',' or '=':
     # those are separators of the line protocol)
     cfg['dirname'] = rng.choice(DIRNAMES)
+    cfg['log'] = rng.choice(['error', 'error', 'info', 'debug', 'warn', ''])
     cfg['cli'] = cli
     return cfg
 
@@ -161,12 +162,30 @@ def expected(cli):
     dd = raw(cli['d'], cli['D'], False)
     return {'listen': listen, 'allow': allow, 'versions': int(sv[-1]) if sv else 100, 'days': int(sd[-1]) if sd else 14, 'dir': dd[-1] if dd else '/var/lib/taskchampion-sync-server'}
 
-def start(binp, argv, env, quiet=False):
-    e = {k: v for k, v in os.environ.items() if k not in ('LISTEN', 'DATA_DIR', 'CLIENT_ID', 'SNAPSHOT_VERSIONS', 'SNAPSHOT_DAYS')}
+def start(binp, argv, env, quiet=False, log=None):
+    e = {k: v for k, v in os.environ.items() if k not in ('LISTEN', 'DATA_DIR', 'CLIENT_ID', 'SNAPSHOT_VERSIONS', 'SNAPSHOT_DAYS', 'RUST_LOG')}
     e.update(env)
-    e['RUST_LOG'] = 'error'
-    # quiet: a run in which many requests fail would fill the stderr pipe with logged backtraces and block the server
-    return subprocess.Popen([binp] + argv, env=e, stdout=subprocess.DEVNULL, stderr=subprocess.DEVNULL if quiet else subprocess.PIPE)
+    # the log level is part of the environment the binary runs in (docker-compose.yml sets RUST_LOG=info): it must not
+    # change what the server does. The log goes to a file: a pipe nobody reads blocks the server once it is full.
+    if log is not None:
+        e['RUST_LOG'] = log
+    elif 'RUST_LOG' not in e:
+        e['RUST_LOG'] = 'error'
+    if e['RUST_LOG'] == '':
+        del e['RUST_LOG']
+    if quiet:
+        return subprocess.Popen([binp] + argv, env=e, stdout=subprocess.DEVNULL, stderr=subprocess.DEVNULL)
+    errf = tempfile.TemporaryFile()
+    p = subprocess.Popen([binp] + argv, env=e, stdout=subprocess.DEVNULL, stderr=errf)
+    p.errfile = errf
+    return p
+
+def stderr_tail(proc, n=300):
+    try:
+        proc.errfile.seek(0)
+        return proc.errfile.read().decode(errors='replace')[-n:]
+    except Exception:
+        return ''
 
 def wait_ports(proc, ports, timeout=8.0):
     t0 = time.time()
@@ -232,14 +251,14 @@ def run_config(out, binp, rng, hi):
         exp = expected(cli)
         allow = exp['allow']
         out.write(f"run h={hi} setup=binary backend=sql entry=http binary=1 days={exp['days']} versions={exp['versions']} allow={'none' if allow is None else ','.join(allow)} clients=\n")
-        proc = start(binp, argv, env)
+        proc = start(binp, argv, env, log=cfg['log'])
         ok = wait_ports(proc, cfg['ports'])
         up = [p for p in cfg['ports'] if listening(p)]
         # addresses from the environment that must NOT be served when a flag is given: port 1 is never ours
-        out.write(f"# i=0 op=config listenmode={'short' if cfg.get('short') else 'x'} expected_ports={','.join(map(str, cfg['ports']))}\n")
+        out.write(f"# i=0 op=config listenmode={'short' if cfg.get('short') else 'x'} rustlog={cfg['log'] or 'unset'} expected_ports={','.join(map(str, cfg['ports']))}\n")
         out.write(config_line(cli) + f" => {'ok' if ok else 'failed'} listen={','.join('127.0.0.1:' + str(p) for p in up)} dir={datadir if os.path.isdir(datadir) else '-'} days=? versions=? allow=?\n")
         if not ok:
-            err = proc.stderr.read().decode(errors='replace')[-300:] if proc.poll() is not None else 'not listening'
+            err = stderr_tail(proc) if proc.poll() is not None else 'not listening'
             out.write(f"# startup: {err!r}\n".replace('\n', ' ') + '\n')
             return
         listed = allow[0] if allow else str(uuid.UUID(int=rng.getrandbits(128), version=4))
@@ -266,7 +285,7 @@ def run_config(out, binp, rng, hi):
         out.write(f"# i={k + 1} op=reopen kill=9\n")
         out.write("reopen => ok\n")
         out.write(f"# i={k + 1} op=dircheck\ndircheck => {dircheck(work, datadir)}\n")
-        proc = start(binp, argv, env)
+        proc = start(binp, argv, env, log=cfg['log'])
         ok2 = wait_ports(proc, cfg['ports'])
         out.write(f"# i={k + 2} op=restart\nrestart => {'ok' if ok2 else 'failed'}\n")
         def walk(k):
@@ -295,7 +314,7 @@ def run_config(out, binp, rng, hi):
                     jp = os.path.join(work, junk)
                     shutil.rmtree(jp, ignore_errors=True) if os.path.isdir(jp) else os.unlink(jp)
             argv3, env3 = argv_env(cfg, moved)
-            proc = start(binp, argv3, env3)
+            proc = start(binp, argv3, env3, log=cfg['log'])
             ok3 = wait_ports(proc, cfg['ports'])
             out.write(f"# i={k + 2} op=restart moved=1\nrestart => {'ok' if ok3 else 'failed'}\n")
             if ok3:
@@ -359,6 +378,66 @@ def run_broken(out, binp, rng, hi):
         shutil.rmtree(work, ignore_errors=True)
         out.write(f"end h={hi} dead=0\n")
 
+def run_crashbin(out, binp, rng, hi):
+    """the real executable, killed while several clients are adding versions concurrently (so that the write-ahead log holds
+    committed, not yet checkpointed transactions), and restarted through its own `main`: every acknowledged version must
+    be served afterwards"""
+    import threading
+    base = os.environ.get('VERIF_SCRATCH', '/dev/shm')
+    work = tempfile.mkdtemp(prefix='tcsc17k', dir=base if os.path.isdir(base) else None)
+    datadir = os.path.join(work, 'data')
+    port = free_ports(1)[0]
+    proc = None
+    try:
+        out.write(f"run h={hi} setup=binary-crash backend=sql entry=http binary=1 days=14 versions=100 allow=none clients=\n")
+        argv = ['--listen', f'127.0.0.1:{port}', '--data-dir', datadir]
+        proc = start(binp, argv, {}, quiet=True)
+        if not wait_ports(proc, [port]):
+            out.write("# startup failed\n")
+            return
+        nthreads = 4 + rng.randrange(5)
+        target = 20 + rng.randrange(60)
+        clients = [str(uuid.UUID(int=rng.getrandbits(128), version=4)) for _ in range(nthreads)]
+        acked, lock, stop = [], threading.Lock(), threading.Event()
+        def worker(c):
+            latest = NIL
+            while not stop.is_set():
+                try:
+                    st, h, _ = http_req(port, 'POST', f'/v1/client/add-version/{latest}', [('Content-Type', HS_CT), ('X-Client-Id', c)], os.urandom(40))
+                except Exception:
+                    return
+                if st == 200 and 'x-version-id' in h:
+                    with lock:
+                        acked.append((c, latest, h['x-version-id']))
+                    latest = h['x-version-id']
+                else:
+                    return
+        ths = [threading.Thread(target=worker, args=(c,)) for c in clients]
+        for t in ths: t.start()
+        t0 = time.time()
+        while time.time() - t0 < 20:
+            with lock:
+                if len(acked) >= target: break
+            time.sleep(0.002)
+        proc.send_signal(signal.SIGKILL); proc.wait()
+        stop.set()
+        for t in ths: t.join()
+        with lock:
+            got = list(acked)
+        out.write(f"# i=1 op=kill acked={len(got)} threads={nthreads} files={'|'.join(sorted(f + ':' + str(os.path.getsize(os.path.join(datadir, f))) for f in os.listdir(datadir)))}\n")
+        proc = start(binp, argv, {}, quiet=True)
+        ok = wait_ports(proc, [port])
+        out.write(f"# i=2 op=restart\nrestart => {'ok' if ok else 'failed'}\n")
+        if ok:
+            s = Sess(out, port)
+            for k, (c, parent, vid) in enumerate(got):
+                s.call(f"i={k + 3} op=ackcheck want={vid}", 'GET', f'/v1/client/get-child-version/{parent}', [('X-Client-Id', c)], kind='xhttp')
+    finally:
+        if proc is not None and proc.poll() is None:
+            proc.kill(); proc.wait()
+        shutil.rmtree(work, ignore_errors=True)
+        out.write(f"end h={hi} dead=0\n")
+
 def main(out_path, seed, first, n, mode='config'):
     binp = BIN
     if not os.path.exists(binp):
@@ -366,7 +445,7 @@ def main(out_path, seed, first, n, mode='config'):
     with open(out_path, 'w') as out:
         for hi in range(first, first + n):
             rng = random.Random(seed * 1000003 + hi)
-            (run_broken if mode == 'broken' else run_config)(out, binp, rng, hi)
+            {'broken': run_broken, 'crashbin': run_crashbin}.get(mode, run_config)(out, binp, rng, hi)
 
 if __name__ == '__main__':
     build_binary()
